@@ -114,6 +114,17 @@ def run(tier, seed):
                     viols.append({"key": "non-public member reachable as a command", "cls": cls_name, "width": width, "cmd": cmd, "reply": repr(out)[:300]})
             if s.died():
                 viols.append({"key": "session ended during enumeration", "cls": cls_name, "width": width, "how": s.died()})
+            if width in (None, 80, 300):
+                # "from then on": a long session history must not wear the command surface out - here: one reply
+                # far longer than any help text (a usage error echoing a 6000-character argument), then all help again
+                long_out = ask("cancel " + "9" * 6000 + "x")
+                if len(long_out) != 1 or len(long_out[0]) < 4096:
+                    viols.append({"key": "long erroneous argument not echoed in one reply", "cls": cls_name, "width": width, "n": len(long_out)})
+                for cmd, want in first_answers.items():
+                    got = ask(cmd + " -h")
+                    if got != want:
+                        viols.append({"key": "command help changed after a long reply in the same session", "cls": cls_name,
+                                      "width": width, "cmd": cmd, "reply": repr(got)[:200]})
             if width in (None, 80, 120):
                 # a second client of the same pool (same terminal width) while the first is still connected
                 with cap.active():
